@@ -417,7 +417,32 @@ def describe(c):
     return {"component": c.comp, "input": pretty(c.x, 60), "profile": c.profile, "kind": c.meta.get("kind")}
 
 
-THEOREMS = []
+THEOREMS = [
+    ("writeable_is_append",
+     r"forall grow junk (c : wctor) (writes : list bytes), grow_ok grow -> wb_session grow junk c writes = Ok (wctor_init c ++ concat writes)"),
+    ("writeable_from_any_buffer",
+     r"forall grow junk (b : buf) (writes : list bytes), grow_ok grow -> wf b -> exists w w' b', wb_from b = Ok w /\ wb_writes grow junk w writes = Ok w' /\ wb_into_inner w' = Ok b' /\ wf b' /\ contents b' = contents b ++ concat writes"),
+    ("replace_is_splice",
+     r"forall grow junk (checked : bool) (b : buf) (s e : N) (rep : bytes), grow_ok grow -> wf b -> fits b rep -> s <= e -> e <= N.of_nat (b_len b) -> exists b', cow_replace grow junk checked b s e rep = Ok b' /\ wf b' /\ contents b' = splice (N.to_nat s) (N.to_nat e) rep (contents b)"),
+    ("replace_panics_iff",
+     r"forall grow junk (checked : bool) (b : buf) (s e : N) (rep : bytes), grow_ok grow -> wf b -> fits b rep -> (cow_replace grow junk checked b s e rep = Panic <-> N.of_nat (b_len b) < e)"),
+    ("replace_complete",
+     r"forall grow junk (checked : bool) (b : buf) (s e : N) (rep : bytes), grow_ok grow -> wf b -> fits b rep -> if e <=? N.of_nat (b_len b) then exists b', cow_replace grow junk checked b s e rep = Ok b' /\ wf b' /\ contents b' = splice (N.to_nat (N.min s e)) (N.to_nat e) rep (contents b) else cow_replace grow junk checked b s e rep = Panic"),
+    ("read_all_or_prefix",
+     r"forall grow junk (b : buf) (chunks : list bytes) (max : N), grow_ok grow -> wf b -> exists b' rest taken, read_to_end_or_max grow junk false b (data_stream chunks) max = RDone b' rest /\ contents b' = contents b ++ taken /\ concat chunks = taken ++ fst (pre_fail rest) /\ (taken = concat chunks \/ max <= N.of_nat (length (contents b')))"),
+    ("read_with_failures",
+     r"forall grow junk (b : buf) (cs : stream) (max : N), grow_ok grow -> wf b -> read_spec (contents b) cs max (read_to_end_or_max grow junk false b cs max)"),
+    ("read_file_whole",
+     r"forall grow junk (chunks : list bytes), grow_ok grow -> N.of_nat (length (concat chunks)) < u64_max -> read_file grow junk (data_stream chunks) = Ok (concat chunks)"),
+    ("read_file_complete",
+     r"forall grow junk (cs : stream), grow_ok grow -> N.of_nat (stream_len cs) < u64_max -> read_file grow junk cs = match snd (pre_fail cs) with None => Ok (fst (pre_fail cs)) | Some _ => Err 0 end"),
+    ("no_junk",
+     r"forall grow j1 j2, grow_ok grow -> (forall c writes, wb_session grow j1 c writes = wb_session grow j2 c writes) /\ (forall checked b1 b2 s e rep, wf b1 -> wf b2 -> fits b1 rep -> contents b1 = contents b2 -> match cow_replace grow j1 checked b1 s e rep, cow_replace grow j2 checked b2 s e rep with | Ok r1, Ok r2 => contents r1 = contents r2 | Panic, Panic => True | _, _ => False end) /\ (forall b1 b2 cs max, wf b1 -> wf b2 -> contents b1 = contents b2 -> capacity b1 = capacity b2 -> same_obs (read_to_end_or_max grow j1 false b1 cs max) (read_to_end_or_max grow j2 false b2 cs max)) /\ (forall cs, N.of_nat (stream_len cs) < u64_max -> read_file grow j1 cs = read_file grow j2 cs)"),
+    ("legacy_read_ok_with_room",
+     r"forall grow junk (b : buf) (cs : stream) (max : N), grow_ok grow -> wf b -> (b_len b < capacity b \/ capacity b < 32)%nat -> read_spec (contents b) cs max (read_to_end_or_max grow junk true b cs max)"),
+    ("legacy_read_refuted",
+     r"exists b cs max, wf b /\ ~ read_spec (contents b) cs max (read_to_end_or_max grow_vec (junk_of []) true b cs max)"),
+]
 
 RULE = ("direct calls of kvarn_utils::WriteableBytes (new / with_capacity / From<BytesMut>, write*, into_inner), "
         "kvarn_utils::BytesCow::replace (Ref and three kinds of Mut storage, overflow checks on and off), "
@@ -442,6 +467,16 @@ ASSUMPTIONS = [
 TRUSTED = ["modelled: utils/src/lib.rs WriteableBytes (new, with_capacity, From<BytesMut>, write, into_inner) and BytesCow::replace; "
            "async/src/lib.rs read_to_end_or_max (+ inner reserve); src/read.rs read/file (non-uring); bytes::BytesMut::{reserve,set_len}, "
            "slice::{copy_within,copy_from_slice} by their documented contracts"]
-LEVEL_TEXT = ""
-LEVEL_NOTE = ""
+LEVEL_TEXT = ("Machine-checked Coq theorems over a model of the three helpers in which a buffer is (allocation contents, visible length), "
+              "growth goes through an arbitrary allocation policy and uninitialised memory is an arbitrary parameter: WriteableBytes = append "
+              "for every constructor, capacity and write sequence; BytesCow::replace = splice for every in-bounds range, panic exactly when the "
+              "end lies beyond the body (both overflow modes); read_to_end_or_max returns the old contents plus the whole stream or a prefix "
+              "reaching max, for every chunking and every failing reader; read::file returns the whole file; none of the results depends on "
+              "uninitialised memory. The model is tied to /repo on every run by a differential run of the real functions (scripted AsyncRead on "
+              "a tokio current-thread runtime, temp file for read::file) against the extracted model, with exact equality of results.")
+LEVEL_NOTE = ("Trusted: Coq kernel, extraction (ExtrOcamlBasic) reduced by an in-kernel recheck sample, the hand transcription of "
+              "utils/src/lib.rs, async/src/lib.rs and src/read.rs into Model/Buffers.v as validated by the differential run, the documented "
+              "contracts of BytesMut::reserve/set_len and slice::copy_within/copy_from_slice. The real side cannot choose the contents of "
+              "uninitialised memory, so junk-independence of the implementation rests on the theorem plus the model correspondence. No axioms. "
+              "One defect found and repaired: read_to_end_or_max read nothing into a full buffer of >= 32 bytes (theorem legacy_read_refuted).")
 TECHNIQUE = "Coq proof (model = spec for all inputs, capacities, growth policies and junk) + differential correspondence model vs. implementation"
